@@ -130,7 +130,7 @@ def catalogue_shapes(tier="quick"):
     add("holes_small_for_inline", lambda r: [1, 3, 4])
     # exact spans (max - min) around the widths of machine words and narrow integers: an
     # implementation that switches strategy on the span (bitset, table, ...) is off by one right there
-    for sp in (31, 32, 33, 63, 64, 65, 127, 128, 129, 255, 256, 257):
+    for sp in (31, 32, 33, 63, 64, 65, 127, 128, 129, 255, 256, 257, 65535, 65536, 65537):
         def span_shape(r, sp=sp):
             lo, hi, _, _ = repr_bounds(r)
             base = -3 if signed(r) and sp < 200 else 0
@@ -142,6 +142,9 @@ def catalogue_shapes(tier="quick"):
     add("holes_span_2_63_up", lambda r: [-2, -1, I64_MAX - 1, I64_MAX] if r in swide0 else None, swide0)
     add("holes_span_2_63_down", lambda r: [I64_MIN + 1, I64_MIN + 2, 1, 2] if r in swide0 else None, swide0)
     add("two_at_i64_extremes", lambda r: [I64_MIN + 1, I64_MAX] if r in swide0 else None, swide0)
+    # more than 1024 runs (a run index or a scratch buffer sized for "ordinary" enums)
+    add("holes_1100_singletons", lambda r: list(range(-1100, 1100, 2)) if r in ("i16", "i32", "i64") else None,
+        ["i16", "i32", "i64"])
     add("holes_300_singletons", lambda r: list(range(-300, 300, 2)) if r in ("i16", "i32", "i64", "isize", "i128") else None,
         ["i16", "i32", "i64", "isize", "i128"])
 
@@ -173,6 +176,15 @@ def catalogue_shapes(tier="quick"):
             return v
         return f
 
+    # exact powers of two (and one more) as variant counts
+    add("count_512_gapless", lambda r: list(range(-12, 500)) if r in ("i16", "i32") else None, ["i16", "i32"])
+    add("count_1024_two_runs", lambda r: list(range(0, 1000)) + list(range(2000, 2024)) if r in ("u16", "i32", "u64") else None,
+        ["u16", "i32", "u64"])
+    add("count_1025_gapless", lambda r: list(range(-1000, 25)) if r in ("i16", "i64") else None, ["i16", "i64"])
+    if tier == "thorough":
+        add("count_4096_runs", lambda r: runs_to_values([(k * 300, k * 300 + 255) for k in range(16)]) if r in ("u16", "i32") else None,
+            ["u16", "i32"])
+        add("count_4097_gapless", lambda r: list(range(-4000, 97)) if r in ("i16", "i32") else None, ["i16", "i32"])
     add("big_257_gapless", big(257, 1, -128))
     add("big_300_three_runs", big(300, 3, -150))
     add("big_1000_ten_runs", big(1000, 10, -200))
@@ -283,7 +295,7 @@ def seeded_values(rng, r):
     return v
 
 
-RENAME_POOL = ["", "a b", "ünïçødé", "quote\"q", "back\\slash", "{brace}", "V0", "v1",
+RENAME_POOL = ["long_name_" * 30, "", "a b", "ünïçødé", "quote\"q", "back\\slash", "{brace}", "V0", "v1",
                "with\nnewline", "中文", "  padded  ", "#", "r#type"]
 
 
